@@ -463,3 +463,122 @@ Proof.
   split; [reflexivity|]. split; [reflexivity|].
   split; [eexists; vm_compute; reflexivity|]. vm_compute. split; reflexivity.
 Qed.
+
+(* ------- Stage 2, conditions on the OLD token list (renaming a command) *)
+
+(* an edit at a path replaces exactly the token segment of the addressed
+   element *)
+Theorem C14r_edit_tokens_local : forall f ds p x,
+  dn_get (Nr ds) p = Some (Nd x) ->
+  exists pre post, flat_list ds = pre ++ flat x ++ post /\
+                   flat_list (edit_docs f p ds) = pre ++ flat (f x) ++ post.
+Proof. exact edit_tokens_local. Qed.
+Print Assumptions C14r_edit_tokens_local.
+
+(* `printable` survives an edit that puts a printable element in place *)
+Theorem C14r_edit_printable : forall f ds p x,
+  forallb printable ds = true -> dn_get (Nr ds) p = Some (Nd x) ->
+  printable x = true /\
+  (printable (f x) = true -> forallb printable (edit_docs f p ds) = true).
+Proof. exact edit_printable. Qed.
+Theorem C14r_rename_printable : forall s x,
+  strip s = s -> printable x = true -> printable (rename_node s x) = true.
+Proof. exact rename_printable. Qed.
+Theorem C14r_restring_printable : forall s x,
+  printable x = true -> printable (restring_node s x) = true.
+Proof. exact restring_printable. Qed.
+
+(* `nosize t`: t is not a CommandName token whose text is the letter part of
+   a sizing command (left, right, big, Big, bigg, Bigg) *)
+Theorem C14r_nosize : forall t,
+  nosize t = negb (tc_beq (tcat t) TCommandName) ||
+             negb (mem_str (ttext t) TokInverse.sizing_prefixes).
+Proof. reflexivity. Qed.
+
+(* the tokenizer's follow conditions are local for such tokens: a suffix A of
+   the token list can be replaced by B when both start with the same
+   character and the same kind of token *)
+Theorem C14r_follows_ok_splice : forall pre A B,
+  Forall (fun t => TokInverse.shape t = true) pre -> forallb nosize pre = true ->
+  hd_error (TokInverse.texts A) = hd_error (TokInverse.texts B) ->
+  (forall e, TokInverse.pre_ok e A = TokInverse.pre_ok e B) ->
+  TokInverse.follows_ok (pre ++ A) = true -> TokInverse.follows_ok B = true ->
+  TokInverse.follows_ok (pre ++ B) = true.
+Proof. exact follows_ok_splice. Qed.
+Print Assumptions C14r_follows_ok_splice.
+
+(* a renamed CommandName token keeps shape / follow: the new name has the
+   shape of a command name and is not a sizing prefix *)
+Theorem C14r_rename_follows : forall e n s post,
+  tcat e = TEscape -> tcat n = TCommandName ->
+  TokInverse.shape n = true -> TokInverse.shape (mkt s (tpos n) (tcat n)) = true ->
+  mem_str s TokInverse.sizing_prefixes = false ->
+  TokInverse.follows_ok (e :: n :: post) = true ->
+  TokInverse.follows_ok (e :: mkt s (tpos n) (tcat n) :: post) = true.
+Proof. exact rename_follows. Qed.
+Print Assumptions C14r_rename_follows.
+
+(* C14_reparse_string_partial for the renaming of a command, every lexical
+   hypothesis stated on the old token list and the new name; of the new list
+   only the index-0 quirk (`first_ok`) is asked *)
+Theorem C14_reparse_string_partial_rename_cmd :
+  forall ds p e n args s strict user,
+    wf_seq (all_skip user) false CTop ds [] = true ->
+    dn_get (Nr ds) p = Some (Nd (DCmd e n args)) ->
+    rename_ok (all_skip user) s (DCmd e n args) = true ->
+    forallb printable ds = true -> Forall tok_wf (flat_list ds) ->
+    Forall (fun t => TokInverse.shape t = true) (flat_list ds) ->
+    TokInverse.follows_ok (flat_list ds) = true -> forallb nosize (flat_list ds) = true ->
+    tcat e = TEscape -> tcat n = TCommandName ->
+    TokInverse.shape (mkt s (tpos n) (tcat n)) = true ->
+    mem_str s TokInverse.sizing_prefixes = false ->
+    TokInverse.first_ok (flat_list (rename_docs s p ds)) = true ->
+    exists t', set_name (ERoot (map tree ds)) p s = Done t' /\
+      estr t' = texts (flat_list (rename_docs s p ds)) /\
+      exists t'', parse (estr t') strict user = Ok t'' /\ FixedPoint.expr_pos_sim t' t''.
+Proof. exact reparse_rename_cmd_string_old. Qed.
+Print Assumptions C14_reparse_string_partial_rename_cmd.
+
+Example C14r_exA_old_hyps :
+  forallb printable exA_doc = true /\ forallb tok_wfb (flat_list exA_doc) = true /\
+  forallb TokInverse.shape (flat_list exA_doc) = true /\
+  TokInverse.follows_ok (flat_list exA_doc) = true /\
+  forallb nosize (flat_list exA_doc) = true /\
+  match dn_get (Nr exA_doc) exA_cmd_path with
+  | Some (Nd (DCmd e n args)) =>
+    tcat e = TEscape /\ tcat n = TCommandName /\
+    TokInverse.shape (mkt [122;122]%N (tpos n) (tcat n)) = true
+  | _ => False
+  end /\
+  mem_str [122;122]%N TokInverse.sizing_prefixes = false /\
+  TokInverse.first_ok (flat_list (rename_docs [122;122]%N exA_cmd_path exA_doc)) = true.
+Proof. exact exA_rename_cmd_old_hyps. Qed.
+
+(* both sizing conditions are forced: Stage 1 holds, the string level fails *)
+(* \left\lang, lang -> langle : \left\langle is ONE sizing command *)
+Theorem C14_rename_sizing_context_refuted :
+  exists ds p x s t' t'',
+    tokens_of_string [92;108;101;102;116;92;108;97;110;103]%N = (flat_list ds, TEnd) /\
+    wf_seq (all_skip []) false CTop ds [] = true /\
+    dn_get (Nr ds) p = Some (Nd x) /\ rename_ok (all_skip []) s x = true /\
+    forallb printable ds = true /\ lex_ok (flat_list ds) = true /\
+    mem_str s TokInverse.sizing_prefixes = false /\
+    set_name (ERoot (map tree ds)) p s = Done t' /\
+    parse_tokens (flat_list (rename_docs s p ds)) true [] = Ok t' /\
+    parse (estr t') true [] = Ok t'' /\ ~ FixedPoint.expr_pos_sim t' t''.
+Proof. exact rename_sizing_context_refuted. Qed.
+Print Assumptions C14_rename_sizing_context_refuted.
+
+(* \a(x), a -> left : \left(x) starts with the sizing command "left(" *)
+Theorem C14_rename_to_sizing_prefix_refuted :
+  exists ds p x s t' t'',
+    tokens_of_string [92;97;40;120;41]%N = (flat_list ds, TEnd) /\
+    wf_seq (all_skip []) false CTop ds [] = true /\
+    dn_get (Nr ds) p = Some (Nd x) /\ rename_ok (all_skip []) s x = true /\
+    forallb printable ds = true /\ lex_ok (flat_list ds) = true /\
+    forallb nosize (flat_list ds) = true /\
+    set_name (ERoot (map tree ds)) p s = Done t' /\
+    parse_tokens (flat_list (rename_docs s p ds)) true [] = Ok t' /\
+    parse (estr t') true [] = Ok t'' /\ ~ FixedPoint.expr_pos_sim t' t''.
+Proof. exact rename_to_sizing_prefix_refuted. Qed.
+Print Assumptions C14_rename_to_sizing_prefix_refuted.
